@@ -18,7 +18,7 @@ import numpy as np
 from harness import common as C
 from harness import zoo as Z
 
-ANCHORS = ["T2", "T7ser", "T7pipe"]
+ANCHORS = ["T2", "T7ser", "T7pipe", "T9text"]
 MODELS = ["Serial"]
 RULE = ("(i) attribute values: None/bool/int/float/str/list/dict nestings of depth <= 3 plus the literal-looking strings "
         "'', '[m/s]', '{a}', 'True', 'None', '[1, 2]', 'abc', ...; at node level and at variable level of a DataTree; "
